@@ -779,6 +779,10 @@ func (c *Context) Ln(d, x *Decimal) (Condition, error) {
 
 	nc := c.WithPrecision(p)
 	nc.Rounding = RoundHalfEven
+	// Intermediate values (x - 1 in particular) are not bound by the exponent
+	// range of the result; only the final rounding is.
+	nc.MaxExponent = MaxExponent
+	nc.MinExponent = MinExponent
 	ed := MakeErrDecimal(nc)
 
 	var tmp1, tmp2, tmp3, tmp4, z, resAdjust Decimal
